@@ -9,6 +9,7 @@ cp /repo/Cargo.lock harness/Cargo.lock
 # syntax/semantic check of every specification
 fail=0
 for f in spec/*.tla; do
+  case "$f" in *Proof.tla) continue;; esac   # TLAPS proof modules are checked by tlapm (C10 / C11), SANY has no TLAPS.tla
   if ! tla-sany "$f" >/dev/null 2>work/sany.err; then
     if ! (cd spec && tla-sany "$(basename $f)" > ../work/sany.out 2>&1); then echo "SANY failed: $f"; tail -5 work/sany.out; fail=1; fi
   fi
